@@ -39,9 +39,10 @@ type tmpl struct {
 }
 
 type hole struct {
-	kind byte // i a l r t f n c 0-9
-	adds []envVar
-	rep  bool
+	kind  byte // i a l r t f n c 0-9
+	adds  []envVar
+	rep   bool
+	class string // where the hole sits: call-argument, if-test, let-init, progn-last, function-body-last ...
 }
 
 type envVar struct {
@@ -90,10 +91,10 @@ var templateSrc = []struct {
 	{"lt1", "r", "let", "(let ((x ?i)) ?r+x)", 0},
 	{"lt2", "r", "let", "(let ((x ?i) (y ?i)) ?a+x+y ?r+x+y)", 2},
 	{"lts", "l", "let-shadowing", "(let ((x ?i) (y ?i)) (let ((x ?i+x+y) (y ?i+x+y)) (list x y ?a+x+y)))", 1},
-	{"ltn", "l", "let-no-init", "(let (x (y)) (list x y ?a))", 0},
+	{"ltn", "l", "let-no-init", "(let (x (y)) (list x y ?a+x?+y?))", 0},
 	{"ls2", "r", "let*", "(let* ((x ?i) (y ?i+x)) ?a+x+y ?r+x+y)", 2},
 	{"lss", "l", "let*-shadowing", "(let ((x ?i) (y ?i)) (let* ((x ?i+x+y) (y ?i+x+y)) (list x y ?a+x+y)))", 0},
-	{"lsn", "l", "let*-no-init", "(let* (x (y)) (list x y ?a))", 0},
+	{"lsn", "l", "let*-no-init", "(let* (x (y)) (list x y ?a+x?+y?))", 0},
 	{"ltv", "a", "let-init-multiple-values", "(let ((x ((lambda (a b) (values a b)) ?a ?a))) x)", 0},
 	{"sq1", "l", "setq", "(let ((x ?i)) (list (setq x ?i+x) x ?a+x x))", 2},
 	{"sq2", "l", "setq-pairs", "(let ((x ?i) (y ?i)) (list (setq x ?i+x+y y ?i+x+y) x y))", 0},
@@ -113,8 +114,8 @@ var templateSrc = []struct {
 	{"df2", "l", "defun-called-twice", "(progn (defun NAME (a) ?a+a*) (list (NAME ?i) (NAME ?i)))", 0},
 	{"dfs", "l", "defun-called-through-designators", "(progn (defun NAME (a b) (list a b ?a+a+b*)) (list (funcall 'NAME ?i ?i) (funcall #'NAME ?i ?i) (apply #'NAME ?i (list ?i))))", 0},
 	{"dfv", "l", "defun-returning-values", "(progn (defun NAME (a b) (values a b ?a+a+b*)) (multiple-value-bind (a b c) (NAME ?i ?i) (list a b c)))", 0},
-	{"dol", "r", "dolist", "(dolist (i ?l ?r) ?a+i?* ?a+i?*)", 1},
-	{"dlr", "l", "dolist-result-form-reads-variable", "(dolist (i ?l (list i ?a)) ?a+i?*)", 0},
+	{"dol", "r", "dolist", "(dolist (i ?l ?r+i?) ?a+i?* ?a+i?*)", 1},
+	{"dlr", "l", "dolist-result-form-reads-variable", "(dolist (i ?l (list i ?a+i?)) ?a+i?*)", 0},
 	{"dot", "r", "dotimes", "(dotimes (i ?c ?r+i!) ?a+i!* ?a+i!*)", 2},
 	{"dt0", "r", "dotimes-zero", "(dotimes (i ?0 ?r+i!) ?a+i!*)", 0},
 	{"dtn", "a", "dotimes-no-result", "(dotimes (i ?c) ?a+i!*)", 0},
@@ -123,12 +124,12 @@ var templateSrc = []struct {
 	{"dos", "l", "do*", "(do* ((u 0 (+ u 1)) (v ?i (* u 10))) ((<= 2 u) (list u v ?a+u+v)) ?a+u+v*)", 0},
 	{"dsk", "l", "do*-variable-without-step", "(do* ((u 0 (+ u 1)) (w ?i)) ((<= 2 u) (list u w)) ?a+u+w*)", 0},
 	{"dth", "r", "do-end-test", "(do ((u 0 (+ u 1))) (?t+u ?a+u ?r+u) ?a+u*)", 1},
-	{"dts", "l", "do-end-test-is-a-variable", "(do ((u 0 (+ u 1)) (v nil (<= 1 u))) (v (list u ?a+u)) ?a+u*)", 0},
+	{"dts", "l", "do-end-test-is-a-variable", "(do ((u 0 (+ u 1)) (v nil (<= 1 u))) (v (list u ?a+u+v?)) ?a+u+v?*)", 0},
 	{"don", "a", "do-no-result", "(do ((u 0 (+ u 1))) ((<= 2 u)) ?a+u*)", 0},
 	{"mp1", "l", "mapcar", "(mapcar (lambda (a) ?a+a?*) ?l)", 2},
-	{"mp2", "l", "mapcar-two-lists", "(mapcar (lambda (a b) (list a b ?a*)) ?l ?l)", 0},
+	{"mp2", "l", "mapcar-two-lists", "(mapcar (lambda (a b) (list a b ?a+a?+b?*)) ?l ?l)", 0},
 	{"mps", "l", "mapcar-sharp-quote", "(mapcar #'list ?l ?l)", 0},
-	{"mpn", "l", "mapcar-over-nil", "(mapcar (lambda (a) ?a*) ?n)", 0},
+	{"mpn", "l", "mapcar-over-nil", "(mapcar (lambda (a) ?a+a?*) ?n)", 0},
 	{"apl", "l", "apply", "(apply (lambda (a b c) (list a b c ?a+a+b+c*)) ?i (list ?i ?i))", 1},
 	{"aps", "i", "apply-sharp-quote", "(apply #'+ ?i ?i (list ?i ?i))", 0},
 	{"apq", "i", "apply-quoted-symbol", "(apply '+ (list ?i ?i))", 0},
@@ -139,7 +140,7 @@ var templateSrc = []struct {
 	{"vl0", "a", "function-returning-no-values", "((lambda () (values)))", 0},
 	{"mvb", "l", "multiple-value-bind", "(multiple-value-bind (a b) ?a (list a b ?a+a?+b?))", 2},
 	{"mv3", "l", "multiple-value-bind-fewer-values", "(multiple-value-bind (a b c) (values ?a ?a) (list a b c))", 0},
-	{"mv1", "l", "multiple-value-bind-more-values", "(multiple-value-bind (a) (values ?a ?a) ?a (list a))", 0},
+	{"mv1", "l", "multiple-value-bind-more-values", "(multiple-value-bind (a) (values ?a ?a) ?a+a? (list a))", 0},
 	{"vla", "l", "values-as-argument", "(list ((lambda (a b) (values a b)) ?a ?a) ?a)", 0},
 	{"qtl", "l", "quote", "'(1 a (b 2))", 0},
 	{"qts", "a", "quote", "(quote foo)", 0},
@@ -156,6 +157,11 @@ func init() {
 		t := &tmpl{name: ts.name, typ: ts.typ[0], family: ts.family, src: ts.src, rank: ts.rank}
 		t.root = parseSexpr(ts.src)
 		t.collect(t.root)
+		hi := 0
+		t.classify(t.root, "program", &hi)
+		if hi != len(t.holes) {
+			panic("c01: hole classification out of step in " + t.name)
+		}
 		if tmplByName[t.name] != nil || len(t.name) != 3 {
 			panic("c01: bad template name " + t.name)
 		}
@@ -690,4 +696,123 @@ func (p *program) build(t *term, req byte, h *hole) *node {
 		return n
 	}
 	return copyNode(tp.root)
+}
+
+// classify walks the template with knowledge of the special forms and records
+// for each hole the kind of position it is in. Signatures of two-template
+// failures are keyed by this class, so that e.g. every "argument of an
+// ordinary function call" position is one signature, whatever the function.
+func (t *tmpl) classify(n *node, class string, hi *int) {
+	if n.kind == 's' {
+		if strings.HasPrefix(n.s, "?") {
+			t.holes[*hi].class = class
+			*hi++
+		}
+		return
+	}
+	if n.kind != 'l' || len(n.l) == 0 {
+		return
+	}
+	body := func(forms []*node, name string) {
+		for i, f := range forms {
+			if i == len(forms)-1 {
+				t.classify(f, name+"-last", hi)
+			} else {
+				t.classify(f, name, hi)
+			}
+		}
+	}
+	head := n.l[0]
+	if head.kind == 'l' {
+		// ((lambda ...) args)
+		t.classify(head, class, hi)
+		for _, a := range n.l[1:] {
+			t.classify(a, "call-argument", hi)
+		}
+		return
+	}
+	switch head.s {
+	case "quote":
+	case "function":
+		t.classify(n.l[1], class, hi)
+	case "lambda":
+		body(n.l[2:], "function-body")
+	case "defun":
+		body(n.l[3:], "function-body")
+	case "if":
+		t.classify(n.l[1], "if-test", hi)
+		for _, b := range n.l[2:] {
+			t.classify(b, "if-branch", hi)
+		}
+	case "when", "unless":
+		t.classify(n.l[1], head.s+"-test", hi)
+		body(n.l[2:], head.s+"-body")
+	case "progn":
+		body(n.l[1:], "progn-body")
+	case "prog1":
+		t.classify(n.l[1], "prog1-first", hi)
+		for _, b := range n.l[2:] {
+			t.classify(b, "prog1-rest", hi)
+		}
+	case "and", "or":
+		body(n.l[1:], head.s+"-argument")
+	case "let", "let*":
+		for _, b := range n.l[1].l {
+			if b.kind == 'l' && 1 < len(b.l) {
+				t.classify(b.l[1], head.s+"-init", hi)
+			}
+		}
+		body(n.l[2:], head.s+"-body")
+	case "setq":
+		for i := 2; i < len(n.l); i += 2 {
+			t.classify(n.l[i], "setq-value", hi)
+		}
+	case "cond":
+		for _, c := range n.l[1:] {
+			t.classify(c.l[0], "cond-test", hi)
+			body(c.l[1:], "cond-body")
+		}
+	case "case":
+		t.classify(n.l[1], "case-key", hi)
+		for _, c := range n.l[2:] {
+			body(c.l[1:], "case-body")
+		}
+	case "dolist", "dotimes":
+		spec := n.l[1].l
+		if head.s == "dolist" {
+			t.classify(spec[1], "dolist-list", hi)
+		} else {
+			t.classify(spec[1], "dotimes-count", hi)
+		}
+		if 2 < len(spec) {
+			t.classify(spec[2], head.s+"-result", hi)
+		}
+		for _, b := range n.l[2:] {
+			t.classify(b, head.s+"-body", hi)
+		}
+	case "do", "do*":
+		for _, b := range n.l[1].l {
+			if b.kind == 'l' {
+				if 1 < len(b.l) {
+					t.classify(b.l[1], head.s+"-init", hi)
+				}
+				if 2 < len(b.l) {
+					t.classify(b.l[2], head.s+"-step", hi)
+				}
+			}
+		}
+		end := n.l[2].l
+		t.classify(end[0], head.s+"-end-test", hi)
+		body(end[1:], head.s+"-result")
+		for _, b := range n.l[3:] {
+			t.classify(b, head.s+"-body", hi)
+		}
+	case "multiple-value-bind":
+		t.classify(n.l[2], "multiple-value-bind-values-form", hi)
+		body(n.l[3:], "multiple-value-bind-body")
+	default:
+		for _, a := range n.l[1:] {
+			t.classify(a, "call-argument", hi)
+		}
+	}
 }
